@@ -270,7 +270,7 @@ func sweepProgram(r *vcore.Run, rng *rand.Rand, prog *progs.Program, cidx, vidx 
 				for k, i := range vidx {
 					in[i] = big.NewInt(int64(vt[k]))
 				}
-				if ref := prog.Eval(in, tiny); ref.Sat && !ref.ConstZeroDivisor {
+				if ref := prog.Eval(in, tiny); ref.Sat && !(byConstZero(err) && prog.DivisorIdenticallyZero(in, tiny, func() *big.Int { return big.NewInt(int64(rng.IntN(47))) }, 8)) {
 					bad = true
 					r.Violation("compile-refuses-satisfiable-program/"+builder+"/"+prog.Instrs[0].Op, "Compile failed ("+firstLine(err.Error())+") but the program is satisfiable",
 						map[string]any{"program": prog.String(), "consts": fmt.Sprint(ct), "builder": builder, "inputs": vs(in)})
@@ -370,7 +370,7 @@ func programs(r *vcore.Run) {
 				// with variable inputs only, compile may legitimately refuse when an assertion on folded constants fails
 				sat := false
 				for _, in := range assigns {
-					if ref := prog.Eval(in, f.mod); ref.Sat && !(ref.ZeroDivisor && strings.Contains(err.Error(), "by constant(0)")) {
+					if ref := prog.Eval(in, f.mod); ref.Sat && !(byConstZero(err) && prog.DivisorIdenticallyZero(in, f.mod, func() *big.Int { return uniform(rng, f.mod) }, 8)) {
 						sat = true
 						r.Violation("compile-refuses-satisfiable-program/"+v.builder+"/program", "Compile failed ("+firstLine(err.Error())+") but the program is satisfiable",
 							map[string]any{"program": prog.String(), "builder": v.builder, "field": f.name, "inputs": vs(in)})
@@ -404,7 +404,7 @@ func programs(r *vcore.Run) {
 				c, err := progs.Compile(&p2, consts, f.mod, b)
 				r.Count("compilations", 1)
 				if err != nil {
-					if ref := p2.Eval(in, f.mod); ref.Sat && !ref.ConstZeroDivisor {
+					if ref := p2.Eval(in, f.mod); ref.Sat && !(byConstZero(err) && p2.DivisorIdenticallyZero(in, f.mod, func() *big.Int { return uniform(rng, f.mod) }, 8)) {
 						r.Violation("compile-refuses-satisfiable-program/"+b+"/program-const-variant", "Compile failed ("+firstLine(err.Error())+") but the assignment satisfies the program",
 							map[string]any{"program": p2.String(), "builder": b, "field": f.name, "inputs": vs(in)})
 					} else {
@@ -485,4 +485,17 @@ func aliasSweep(r *vcore.Run) {
 		})
 		r.Count("alias.programs", 1)
 	})
+}
+
+// byConstZero: the builders' refusal of a division whose divisor they folded to the constant 0.
+func byConstZero(err error) bool { return err != nil && strings.Contains(err.Error(), "by constant(0)") }
+
+// uniform draws a uniform non-zero field element.
+func uniform(rng *rand.Rand, mod *big.Int) *big.Int {
+	v := new(big.Int)
+	for i := 0; i < (mod.BitLen()+63)/64+1; i++ {
+		v.Lsh(v, 64).Or(v, new(big.Int).SetUint64(rng.Uint64()))
+	}
+	v.Mod(v, new(big.Int).Sub(mod, big.NewInt(1)))
+	return v.Add(v, big.NewInt(1))
 }
